@@ -310,13 +310,24 @@ Ltac sort_step HP :=
     [apply stable_sort_unique; [apply Permutation_map; exact HP|rewrite map_map; cbn beta]|f_equal; apply map_ext; intros x]
   end.
 
+(* the import set reconcile_aliases puts back (reconcile.rs:71): the same set for two tables that answer alike *)
+Lemma rename_import_table rn1 rn2 i : (forall n c, lookup_rename rn1 n c = lookup_rename rn2 n c) -> rename_import rn1 i = rename_import rn2 i.
+Proof. intros H. unfold rename_import. now rewrite H. Qed.
+Lemma renamed_back_set_eq rn1 rn2 im1 im2 : (forall n c, lookup_rename rn1 n c = lookup_rename rn2 n c) -> set_eq im1 im2 ->
+  set_eq (imp_extend [] (map (rename_import rn1) im1)) (imp_extend [] (map (rename_import rn2) im2)).
+Proof.
+  intros HL HS x. rewrite !imp_extend_in, !in_map_iff. cbn [In].
+  split; (intros [[]|(i & <- & Hi)]; right; exists i; split; [|now apply HS]); [symmetry|]; now apply rename_import_table.
+Qed.
+
 Lemma reconcile_crate_same cn rn1 rn2 pd1 pd2 : pd_rel pd1 pd2 -> names_distinct pd1 ->
+  (forall n c, lookup_rename rn1 n c = lookup_rename rn2 n c) ->
   (forall id, resolve_renamed cn rn1 (p_imports pd1) id = resolve_renamed cn rn2 (p_imports pd2) id) ->
   pd_same (reconcile_crate rn1 cn pd1) (reconcile_crate rn2 cn pd2).
 Proof.
-  intros (Ps & Pe & Pa & Pc & Ht & Hi & He) (Ds & De & Da & Dc) Hres.
+  intros (Ps & Pe & Pa & Pc & Ht & Hi & He) (Ds & De & Da & Dc) HL Hres.
   unfold pd_same, same_items, reconcile_crate. cbn [p_structs p_enums p_aliases p_consts p_type_names p_imports p_errors].
-  split; [|split; [exact Ht|split; [exact Hi|exact He]]]. repeat split.
+  split; [|split; [exact Ht|split; [now apply renamed_back_set_eq|exact He]]]. repeat split.
   - sort_step Ps; [exact Ds|]. f_equal. apply map_ext. now apply check_field_eq.
   - sort_step Pe.
     + erewrite map_ext; [exact De|]. intros e. destruct e; reflexivity.
@@ -326,16 +337,17 @@ Proof.
 Qed.
 
 Lemma reconcile_map_same rn1 rn2 l1 l2 : cs_rel l1 l2 -> all_distinct l1 ->
+  (forall n c, lookup_rename rn1 n c = lookup_rename rn2 n c) ->
   (forall c pd1 pd2, In (c, pd1) l1 -> In (c, pd2) l2 -> pd_rel pd1 pd2 ->
      forall id, resolve_renamed c rn1 (p_imports pd1) id = resolve_renamed c rn2 (p_imports pd2) id) ->
   cs_same (map (fun c => (fst c, reconcile_crate rn1 (fst c) (snd c))) l1)
           (map (fun c => (fst c, reconcile_crate rn2 (fst c) (snd c))) l2).
 Proof.
-  induction 1 as [|[k1 p1] [k2 p2] l1 l2 [HK HR] _ IH]; intros HD Hres; [constructor|]. cbn [fst snd] in HK, HR. subst k2.
+  induction 1 as [|[k1 p1] [k2 p2] l1 l2 [HK HR] _ IH]; intros HD HL Hres; [constructor|]. cbn [fst snd] in HK, HR. subst k2.
   cbn [map fst snd]. constructor.
-  - cbn [fst snd]. split; [reflexivity|]. apply reconcile_crate_same; [exact HR|apply (HD k1); now left|].
+  - cbn [fst snd]. split; [reflexivity|]. apply reconcile_crate_same; [exact HR|apply (HD k1); now left|exact HL|].
     apply Hres; [now left|now left|exact HR].
-  - apply IH; [intros k pd H; apply (HD k); now right|]. intros c a b Ha Hb. apply Hres; now right.
+  - apply IH; [intros k pd H; apply (HD k); now right|exact HL|]. intros c a b Ha Hb. apply Hres; now right.
 Qed.
 
 (* ---------- resolve_renamed on two iteration orders of one import set ---------- *)
@@ -452,12 +464,12 @@ Qed.
 
 Lemma ws_ambiguity_none tt defs per c im :
   ws_imports_ambiguity tt defs per = None -> In (c, im) per ->
-  rename_ambiguous defs im = false /\ fallback_ambiguous tt c im = false.
+  rename_ambiguous defs im = false /\ fallback_ambiguous tt c (renamed_imports defs im) = false.
 Proof.
   induction per as [|[k i] per IH]; intros H Hin; [destruct Hin|]. cbn [ws_imports_ambiguity] in H.
   destruct (imports_ambiguity tt defs k i) eqn:E; [discriminate|].
   destruct Hin as [[= -> ->]|Hin]; [|now apply IH].
-  unfold imports_ambiguity in E. destruct (rename_ambiguous defs im); [discriminate|]. destruct (fallback_ambiguous tt c im); [discriminate|]. auto.
+  unfold imports_ambiguity in E. destruct (rename_ambiguous defs im); [discriminate|]. destruct (fallback_ambiguous tt c (renamed_imports defs im)); [discriminate|]. auto.
 Qed.
 
 (* the workspace classes, evaluated on what the collector holds *)
@@ -465,7 +477,7 @@ Definition ws_ambiguity (cs : crates) : option string := ws_imports_ambiguity (a
 Definition ws_rename_ambiguous (cs : crates) : bool := existsb (fun c => rename_ambiguous (defs_of cs) (p_imports (snd c))) cs.
 
 Lemma ws_ambiguity_entry cs c pd : ws_ambiguity cs = None -> In (c, pd) cs ->
-  rename_ambiguous (defs_of cs) (p_imports pd) = false /\ fallback_ambiguous (all_types cs) c (p_imports pd) = false.
+  rename_ambiguous (defs_of cs) (p_imports pd) = false /\ fallback_ambiguous (all_types cs) c (renamed_imports (defs_of cs) (p_imports pd)) = false.
 Proof.
   intros H Hin. apply (ws_ambiguity_none _ _ _ c (p_imports pd) H). unfold imports_of. apply in_map_iff. now exists (c, pd).
 Qed.
@@ -504,7 +516,7 @@ Lemma multi_core :
   cs_same (multi_crates ho1 l1) (multi_crates ho2 l2).
 Proof.
   intros Hres. unfold multi_crates, reconcile_aliases. fold cs1 cs2.
-  apply reconcile_map_same; [apply ordered_rel|apply ordered_distinct|exact Hres].
+  apply reconcile_map_same; [apply ordered_rel|apply ordered_distinct|apply ordered_lookup|exact Hres].
 Qed.
 End Core.
 
@@ -666,11 +678,18 @@ Qed.
 Lemma all_types_multi ho l : all_types (multi_crates ho l) = all_types (collect l).
 Proof. unfold multi_crates, reconcile_aliases, order_imports, all_types. rewrite !map_map. reflexivity. Qed.
 
-Lemma multi_crates_entry' ho l c pd : In (c, pd) (multi_crates ho l) ->
-  exists p, In (c, p) (collect l) /\ p_imports pd = imports_iter ho p.
+(* an import used_imports sees: an import of the collector's entry, put back by reconcile_aliases under the name
+   its crate generates the type under - the specification's renamed_import *)
+Lemma multi_crates_entry' ho l c pd : oracle_ok ho -> In (c, pd) (multi_crates ho l) ->
+  exists p, In (c, p) (collect l) /\
+    forall imp, In imp (p_imports pd) -> exists i, In i (p_imports p) /\ imp = renamed_import (defs_of (collect l)) i.
 Proof.
-  unfold multi_crates, reconcile_aliases. intros H. apply in_map_iff in H as ([k q] & E & H). cbn [fst snd] in E. injection E as <- <-.
-  apply order_imports_entry in H as (p & Hp & ->). exists p. split; [exact Hp|reflexivity].
+  intros Ho. unfold multi_crates, reconcile_aliases. intros H. apply in_map_iff in H as ([k q] & E & H). cbn [fst snd] in E. injection E as <- <-.
+  apply order_imports_entry in H as (p & Hp & ->). exists p. split; [exact Hp|].
+  cbn [reconcile_crate p_imports with_imports]. intros imp Himp. apply imp_extend_in in Himp as [[]|Himp].
+  apply in_map_iff in Himp as (i & <- & Hi). unfold imports_iter in Hi. apply (proj1 (Ho _ _)) in Hi. apply imp_extend_in in Hi as [[]|Hi].
+  exists i. split; [exact Hi|]. unfold rename_import, renamed_import.
+  rewrite lookup_rename_crates by (rewrite order_imports_keys; apply collect_nodup). now rewrite defs_of_order.
 Qed.
 
 Lemma fallback_unique tt own im imp :
@@ -695,10 +714,10 @@ Proof.
   rewrite !multi_plan_mk. apply plan_map_same; [exact HS|].
   intros c pd Hin imp Himp. apply step_eq; [exact Hc1|exact Hc2| |now apply all_types_rel|].
   - rewrite all_types_multi. unfold all_types. rewrite map_map. apply collect_nodup.
-  - rewrite all_types_multi. apply multi_crates_entry' in Hin as (p & Hp & E). rewrite E in Himp.
+  - rewrite all_types_multi. apply multi_crates_entry' in Hin as (p & Hp & E); [|exact Ho1]. destruct (E imp Himp) as (i & Hi & ->).
     destruct (ws_ambiguity_entry _ c p HA Hp) as [_ HF].
-    apply (fallback_unique _ c (p_imports p)); [exact HF|].
-    unfold imports_iter in Himp. apply (proj1 (Ho1 _ _)) in Himp. apply imp_extend_in in Himp as [[]|Himp]. exact Himp.
+    apply (fallback_unique _ c (renamed_imports (defs_of (collect l1)) (p_imports p))); [exact HF|].
+    unfold renamed_imports. now apply in_map.
 Qed.
 
 (* ====================================================================================== *)
